@@ -139,14 +139,15 @@ type tfile struct {
 }
 
 type layout struct {
-	base     string // basePath handed to Load ("" | "./" | "dir/")
-	dirs     []string
-	files    []tfile
-	expect   map[string]string // every key of every loadable file under base
-	decoy    map[string]string // keys of files the loader must not need (non-json, outside base)
-	failOp   string
-	failPath string
-	broken   string // path of a file with unparseable content ("" = none)
+	base         string // basePath handed to Load ("" | "./" | "dir/")
+	dirs         []string
+	files        []tfile
+	expect       map[string]string // every key of every loadable file under base
+	decoy        map[string]string // keys of files the loader must not need (non-json, outside base)
+	numberLeaves int
+	failOp       string
+	failPath     string
+	broken       string // path of a file with unparseable content ("" = none)
 }
 
 var dirNames = []string{"forms", "en", "pl", "mail", "x", "deep", "v1.json", "a b", "ü", "tmpl"}
@@ -269,7 +270,22 @@ func genLayout(rng *rand.Rand, idx int, tiny bool) *layout {
 			k := sharedKeys[rng.Intn(len(sharedKeys))]
 			flat[k] = shared[k]
 		}
-		tree := refNest(strFlatToAny(flat))
+		anyFlat := strFlatToAny(flat)
+		if rng.Intn(4) == 0 {
+			// number leaves: the loader yields the number as it is written in the file (what the
+			// flat-map reader yields), also beyond 2^53 and in exponent / trailing-zero spellings
+			for j := 0; j < 1+rng.Intn(3); j++ {
+				k := fmt.Sprintf("%s.num%d.n%d", lang, i, j)
+				num := genNumber(rng)
+				if rng.Intn(3) == 0 {
+					num = json.Number([]string{"9007199254740993", "1.50", "1e3", "123456789012345678901234567890", "-0.000"}[rng.Intn(5)])
+				}
+				anyFlat[k] = num
+				flat[k] = string(num)
+			}
+			l.numberLeaves++
+		}
+		tree := refNest(anyFlat)
 		// leaves the loader must skip
 		if rng.Intn(5) == 0 {
 			tree[fmt.Sprintf("meta%d", i)] = []interface{}{"x", true, nil}
@@ -583,6 +599,7 @@ func runLoad(c *sup.Child, b sup.Batch) {
 			if len(l.files) > fsloop.ChanSize {
 				r.AddObs("loads_of_more_files_than_the_loop_channels_hold", 1)
 			}
+			r.AddObs("load_files_with_number_leaves", int64(l.numberLeaves))
 
 			wit := map[string]any{"layout": clip(l.canon(), 4000), "procs": procs, "maxjob": maxJob, "noise": level, "scope": useScope, "disk": disk}
 			r.AddObs("load_calls", 1)
